@@ -14,6 +14,7 @@ from ..model import self_attr, unparse, walk_body_shallow, walk_shallow
 from .util import (call_name, call_recv, calls_in, kwarg, names_in, need, node_assign_value, node_writes_attr, norm,
                    one, registrations, where)
 
+TECHNIQUE = "single-flight typestate via must-hold guard facts, CFG cycle check for suspension, offset def-use, wrapper-offset data dependence"
 EXPLANATION = (
     "Static rules over afkak/consumer.py and afkak/kafkacodec.py: who invokes the processor, CFG cycle check "
     "for a suspension between invocations, must-hold guard facts for the single-block / single-fetch handles, "
